@@ -76,7 +76,7 @@ def scenarios():
         {"do": "task", "payload": {"tool": "bash", "args": {"command": "echo x", "cwd": "no/such"}}},
     ]})
     # 3: continuity operations
-    s.append({"id": "threads", "config": {"stateless_history": True}, "script": [
+    s.append({"id": "threads", "torn_sidecar": True, "config": {"stateless_history": True}, "script": [
         {"status": 200, "chunks": [created(1) + text("one") + done]}, {"status": 200, "chunks": [created(2) + text("two") + done]},
         {"status": 200, "chunks": [created(3) + text("three") + done]}, {"status": 200, "chunks": [created(4) + text("four") + done]}],
         "steps": [
@@ -229,7 +229,8 @@ def run(tier, seed):
                   "late": [digest(f) for f in st["late"]], "replayed": [digest(f) for f in st["log_replayed"]],
                   "has_sidecar": st["sidecar"] is not None, "sidecar": [digest(f) for f in (st["sidecar"] or [])], "sidecar_settled": True,
                   "has_snapshot": st["snapshot"] is not None, "snapshot": [digest(f) for f in (st["snapshot"] or [])],
-                  "seqs": [f.get("seq") for f in logf], "ended": bool(ended)}
+                  "seqs": [f.get("seq") for f in logf], "ended": bool(ended),
+                  "has_fault": "late_after_fault" in st, "late_after_fault": [digest(f) for f in st.get("late_after_fault", [])]}
             events.append(ev)
             v.add_eval({"scenario": res["id"], "stream_kind": st["kind"], "n": len(logf)}, len(logf) >= 3)
             st["_ev"] = ev
@@ -252,7 +253,7 @@ def run(tier, seed):
         st = by_case[cid]["streams"][sid]
         # say which frame differs
         detail = ""
-        copy_name = {"LiveIsLog": "live", "LateSubscriberIsLog": "late", "ReplayedIsRawLog": "log_replayed", "SidecarIsLog": "sidecar", "SnapshotIsLog": "snapshot"}.get(what)
+        copy_name = {"LiveIsLog": "live", "LateSubscriberIsLog": "late", "ReplayedIsRawLog": "log_replayed", "SidecarIsLog": "sidecar", "SnapshotIsLog": "snapshot", "LateSubscriberAfterTornSidecarIsLog": "late_after_fault"}.get(what)
         if copy_name and st.get(copy_name) is not None:
             a, bb = st["log_raw"], st[copy_name]
             k = next((i for i in range(min(len(a), len(bb))) if canon(a[i]) != canon(bb[i])), min(len(a), len(bb)))
